@@ -340,3 +340,11 @@ _inst_before_range = instances
 
 def instances(tier):       # noqa: F811
     return _inst_before_range(tier) + [psd_range_bounded_instance()]
+
+
+_instances_before_simplex = instances
+
+
+def instances(tier):       # noqa: F811
+    from .common import simplex_lemma_instances
+    return _instances_before_simplex(tier) + simplex_lemma_instances('C10')
